@@ -356,6 +356,10 @@ let trace_main file =
                 | "REOPEN" ->
                     let d' = Db.open_scan (Db.close (coqz_of_z now) d) in
                     Some { Conn.s_db = d'; Conn.s_conns = []; Conn.s_registry = [] }
+                | "PROBE" ->
+                    (* Type(name) on every index entry, in index order *)
+                    let d' = List.fold_left (fun dd (name, _) -> snd (Api.api_type name (coqz_of_z now) dd)) d d.Db.idx in
+                    Some (Conn.put_db d' !server)
                 | "FAULTS" ->
                     let fl = List.init (String.length arg) (fun k -> arg.[k] = '1') in
                     Some (Conn.put_db (Db.with_faults d (if arg = "-" then [] else fl)) !server)
